@@ -157,3 +157,17 @@ Definition show_generate (bs : list block) : pstr := show_card (generate bs).
 Definition show_seq (xs : list elem) : pstr :=
   let '(st, rs) := md_seq [] xs in
   concat (map (fun r => show_res r ++ [0]) rs) ++ s "STACK:" ++ join [44] (map show_Z (rev st)).
+
+(* Corr.mismatches with the model's text cut to its first n code points: canonical
+   texts of whole cards are long, and printing many of them overflows coqc's stack *)
+Fixpoint mismatches_trunc_from {A} (n : nat) (run : A -> pstr) (i : N) (cases : list (A * pstr)) : list N :=
+  match cases with
+  | [] => []
+  | (a, expected) :: cs =>
+      let got := run a in
+      if pstr_eqb got expected then mismatches_trunc_from n run (i + 1) cs
+      else let g := firstn n got in
+           i :: N.of_nat (length g) :: g ++ mismatches_trunc_from n run (i + 1) cs
+  end.
+Definition mismatches_trunc {A} (n : nat) (run : A -> pstr) (cases : list (A * pstr)) : list N :=
+  mismatches_trunc_from n run 0 cases.
